@@ -58,7 +58,40 @@ func c39(c *engine.Ctx) {
 	}
 
 	lowerInAdd := false
-	if f := c.MustFunc(PS + "AddPart"); f != nil {
+	if entry := c.MustFunc(PS + "AddPart"); entry != nil {
+		// the body may have been moved into a private "...Locked" method that AddPart
+		// calls (and whose results it returns) while holding the mutex
+		f := entry
+		name := entry.Name
+		hasWrite := func(fn *engine.Fn) bool {
+			for _, w := range p.FieldWrites(fParts) {
+				if w.Fn == fn && w.Kind != "lit" {
+					return true
+				}
+			}
+			return false
+		}
+		if !hasWrite(entry) {
+			for _, cs := range entry.Calls() {
+				fo, _ := cs.Callee.(*types.Func)
+				h := p.FnOf(fo)
+				if h == nil || !hasWrite(h) || !niPrivateCalledOnlyFrom(p, h, []string{entry.Name}, 1) {
+					continue
+				}
+				// same receiver, the part passed on, results returned as they are
+				pm := niParamMap(entry, cs.Call, h)
+				returned := false
+				for _, r := range niReturns(entry) {
+					rs := r.Node.(*ast.ReturnStmt)
+					if len(rs.Results) == 1 && ast.Unparen(rs.Results[0]) == ast.Expr(cs.Call) {
+						returned = true
+					}
+				}
+				if pm[niRecv(entry)] == niRecv(h) && pm[paramObj(entry, 0)] == paramObj(h, 0) && paramObj(h, 0) != nil && returned {
+					f = h
+				}
+			}
+		}
 		info := f.Info()
 		g := f.Graph()
 		recv := niRecv(f)
@@ -81,7 +114,7 @@ func c39(c *engine.Ctx) {
 					okForm = true
 				}
 			}
-			c.Check("add-gated", f.Name+" store is parts[part.Index] = part", w.Node.Pos(), okForm && s != nil, "the slot written must be the part's own index and the value the part itself")
+			c.Check("add-gated", name+" store is parts[part.Index] = part", w.Node.Pos(), okForm && s != nil, "the slot written must be the part's own index and the value the part itself")
 			if s != nil {
 				tg = append(tg, tgt{"slot store", s})
 			}
@@ -91,7 +124,7 @@ func c39(c *engine.Ctx) {
 				continue
 			}
 			inc, ok := w.Node.(*ast.IncDecStmt)
-			c.Check("add-gated", f.Name+" count changes by ++ only", w.Node.Pos(), ok && inc.Tok == token.INC, "count must be incremented by exactly one per stored part")
+			c.Check("add-gated", name+" count changes by ++ only", w.Node.Pos(), ok && inc.Tok == token.INC, "count must be incremented by exactly one per stored part")
 			if s := f.SiteOf(w.Node); s != nil {
 				tg = append(tg, tgt{"count++", s})
 			}
@@ -103,7 +136,7 @@ func c39(c *engine.Ctx) {
 					tv := info.Types[s.Call.Args[1]]
 					okArgs = tv.Value != nil && tv.Value.ExactString() == "true"
 				}
-				c.Check("add-gated", f.Name+" bit set is SetIndex(part.Index, true)", s.Pos(), okArgs, "")
+				c.Check("add-gated", name+" bit set is SetIndex(part.Index, true)", s.Pos(), okArgs, "")
 				tg = append(tg, tgt{"bit set", s})
 			}
 		}
@@ -166,7 +199,7 @@ func c39(c *engine.Ctx) {
 					}
 				}
 			}
-			key := f.Name + " " + t.name
+			key := name + " " + t.name
 			c.Check("add-gated", key+" after strict upper bound", t.s.Pos(), upper, "must hold: part.Index < ps.total")
 			c.Check("add-gated", key+" after empty-slot test", t.s.Pos(), empty, "must hold: ps.parts[part.Index] == nil (a duplicate must not be recounted)")
 			c.Check("add-gated", key+" after Proof.Index == Index", t.s.Pos(), pidx, "must hold: part.Proof.Index == part.Index")
@@ -176,8 +209,8 @@ func c39(c *engine.Ctx) {
 				lowerInAdd = lower
 			}
 		}
-		ok, why := niLocksFirst(f, "mtx")
-		c.Check("add-gated", f.Name+" under the set mutex", f.Pos(), ok, why)
+		ok, why := niLocksFirst(entry, "mtx")
+		c.Check("add-gated", name+" under the set mutex", f.Pos(), ok, why)
 		// success is reported only after the writes
 		nret := 0
 		for _, r := range niReturns(f) {
@@ -196,7 +229,7 @@ func c39(c *engine.Ctx) {
 					all = false
 				}
 			}
-			c.Check("add-gated", f.Name+" added=true only after all three writes", r.Pos(), all && isNil(rs.Results[1]), "")
+			c.Check("add-gated", name+" added=true only after all three writes", r.Pos(), all && isNil(rs.Results[1]), "")
 		}
 		c.Floor("add-gated (success return)", nret, 1)
 	}
@@ -214,14 +247,21 @@ func c39(c *engine.Ctx) {
 		{fBits, "partsBitArray", nil},
 	} {
 		ws := engine.WriterSet(p.FieldWrites(x.f), func(w engine.Write) bool { return w.Kind != "lit" })
-		extra := engine.SetDiff(ws, x.allow)
+		var extra []string
+		for _, wn := range engine.SetDiff(ws, x.allow) {
+			// a private helper called only from an allowed writer does not widen the table
+			if wf := p.Func(wn); wf != nil && len(x.allow) > 0 && niPrivateCalledOnlyFrom(p, wf, x.allow, 2) {
+				continue
+			}
+			extra = append(extra, wn)
+		}
 		c.Check("who-may-write", T+"PartSet."+x.name, token.NoPos, len(extra) == 0, "writers outside the table: "+join(extra))
 	}
 	// bit array mutators on the field only in AddPart
 	var bitMut []string
 	for _, f := range p.FuncsIn("tm2/pkg/bft/types") {
 		for _, s := range f.CallsTo("tm2/pkg/bitarray.(*BitArray).SetIndex", "tm2/pkg/bitarray.(*BitArray).Update") {
-			if niSelField(f.Info(), niRecvExpr(s.Call), fBits) && f.Root().Name != PS+"AddPart" {
+			if niSelField(f.Info(), niRecvExpr(s.Call), fBits) && !niPrivateCalledOnlyFrom(p, f, []string{PS + "AddPart"}, 2) {
 				bitMut = append(bitMut, f.Root().Name)
 			}
 		}
@@ -406,11 +446,55 @@ func c39Split(c *engine.Ctx, p *engine.Prog, f *engine.Fn, fIdx, fBytes, fProof,
 			}
 		}
 	})
+	// the literal may have been moved into a private constructor called from the split loop
+	lfn := f
+	var anchor ast.Node = lit
+	var pm map[types.Object]types.Object
 	if lit == nil {
-		c.Undecided(rule, f.Name, "Part literal not found")
+		for _, cs := range f.Calls() {
+			fo, _ := cs.Callee.(*types.Func)
+			B := p.FnOf(fo)
+			if B == nil || !niPrivateCalledOnlyFrom(p, B, []string{f.Name}, 1) {
+				continue
+			}
+			var bl *ast.CompositeLit
+			engine.InspectBody(B, func(x ast.Node) {
+				if cl, ok := x.(*ast.CompositeLit); ok {
+					if t := B.Info().TypeOf(cl); t != nil && engine.TypeName(t) == "tm2/pkg/bft/types.Part" {
+						bl = cl
+					}
+				}
+			})
+			if bl == nil {
+				continue
+			}
+			// B returns the address of that literal
+			okRet := false
+			for _, r := range niReturns(B) {
+				rs := r.Node.(*ast.ReturnStmt)
+				if len(rs.Results) != 1 {
+					continue
+				}
+				e := ast.Unparen(rs.Results[0])
+				if id, ok := e.(*ast.Ident); ok {
+					if d := niSingleDef(B, B.Info().ObjectOf(id)); d != nil {
+						e = ast.Unparen(d)
+					}
+				}
+				if u, ok := e.(*ast.UnaryExpr); ok && u.Op == token.AND && ast.Unparen(u.X) == ast.Expr(bl) {
+					okRet = true
+				}
+			}
+			if okRet {
+				lit, lfn, anchor, pm = bl, B, cs.Call, niParamMap(f, cs.Call, B)
+			}
+		}
+	}
+	if lit == nil {
+		c.Undecided(rule, f.Name, "Part literal not found (in the function or in a private constructor it calls)")
 		return
 	}
-	loops := niEnclosingLoops(f, lit)
+	loops := niEnclosingLoops(f, anchor)
 	var iv types.Object
 	var bound ast.Expr
 	if len(loops) > 0 {
@@ -443,6 +527,16 @@ func c39Split(c *engine.Ctx, p *engine.Prog, f *engine.Fn, fIdx, fBytes, fProof,
 	}
 	c.Check(rule, f.Name+" total = ceil(len(data)/partSize)", f.Pos(), okTotal, "total must be (len(data)+partSize-1)/partSize")
 	var okIdx, okChunk bool
+	// objects as seen by the function that holds the literal
+	outerInfo, outerIv, outerData, outerPS := info, iv, data, partSize
+	if lfn != f {
+		info = lfn.Info()
+		iv, data, partSize = pm[outerIv], pm[outerData], pm[outerPS]
+		if iv == nil || data == nil || partSize == nil {
+			c.Undecided(rule, f.Name, "the part constructor does not receive data, index and part size as plain arguments")
+			return
+		}
+	}
 	for _, el := range lit.Elts {
 		kv, ok := el.(*ast.KeyValueExpr)
 		if !ok {
@@ -480,7 +574,7 @@ func c39Split(c *engine.Ctx, p *engine.Prog, f *engine.Fn, fIdx, fBytes, fProof,
 				if engine.ObjOf(info, y) == iv {
 					x, y = y, x
 				}
-				v, isC := niIntVal(f, y, 0)
+				v, isC := niIntVal(lfn, y, 0)
 				return engine.ObjOf(info, x) == iv && isC && v == 1
 			}
 			lowOK := isMul(se.Low, false)
@@ -498,8 +592,9 @@ func c39Split(c *engine.Ctx, p *engine.Prog, f *engine.Fn, fIdx, fBytes, fProof,
 	c.Check(rule, f.Name+" part i has Index i", lit.Pos(), okIdx, "")
 	c.Check(rule, f.Name+" chunk i = data[i*partSize : min(len(data),(i+1)*partSize)]", lit.Pos(), okChunk, "consecutive, non-overlapping, complete chunks")
 	// parts[i] = part ; leaves[i] = part.Bytes ; root, proofs := SimpleProofsFromByteSlices(leaves) ; parts[i].Proof = *proofs[i]
+	info, iv, data, partSize = outerInfo, outerIv, outerData, outerPS
 	var partVar types.Object
-	if as, ok := f.SiteOf(lit).Top.(*ast.AssignStmt); ok && len(as.Lhs) == 1 {
+	if as, ok := f.SiteOf(anchor).Top.(*ast.AssignStmt); ok && len(as.Lhs) == 1 {
 		partVar = engine.ObjOf(info, as.Lhs[0])
 	}
 	engine.InspectBody(f, func(x ast.Node) {
